@@ -1409,6 +1409,14 @@ func (f *FnVC) allocTouchedIn(a *ssa.Alloc, li *loopInfo) bool {
 			return true
 		}
 		for _, r := range *refs {
+			if rb := r.Block(); rb != nil && !li.blocks[rb.Index] && li.head.Dominates(rb) {
+				// happens only after the loop has been left: cannot influence any iteration
+				if _, isAddr := r.(*ssa.FieldAddr); !isAddr {
+					if _, isIdx := r.(*ssa.IndexAddr); !isIdx {
+						continue
+					}
+				}
+			}
 			switch x := r.(type) {
 			case *ssa.DebugRef:
 			case *ssa.UnOp:
